@@ -327,6 +327,15 @@ class C18(Prop):
                         if (b, a) not in rec:
                             yield (f"SIGCMP {gnss} {x[0]} {x[1]} {b} {a}", "cmp-neighbour", True)
                             yield (f"SIGCMP {gnss} {b} {a} {x[0]} {x[1]}", "cmp-neighbour", True)
+            # unrecognised against unrecognised: neighbouring bands x attributes at the ends of every plane (a packed sort
+            # key overflows from the attribute into the band)
+            ubands = [b for b in (0, 1, 6, 7, 40, 41, 254, 255)]
+            uattrs = [0x41, 0x7F, 0x80, 0xFF, 0x100, 0xFFFF, 0x10000, 0xFFFFF, 0x100000, 0x100041, 0x10FFFD, 0x10FFFF]
+            pool_u = [(b, a) for b in ubands for a in uattrs if (b, a) not in rec]
+            for x in pool_u:
+                for y in pool_u:
+                    if x[0] in (y[0], y[0] + 1, y[0] - 1) and x != y:
+                        yield (f"SIGCMP {gnss} {x[0]} {x[1]} {y[0]} {y[1]}", "cmp-unrecognised-planes", True)
             for _ in range(300 if ctx.tier == "quick" else 5000):
                 x = r.choice(recl) if r.random() < 0.5 else (r.randrange(256), r.randrange(0x250))
                 y = r.choice(recl) if r.random() < 0.5 else (r.randrange(256), r.randrange(0x250))
@@ -446,6 +455,8 @@ class C20(MsgProp):
             if a and " " not in a and all(ch in "0123456789abcdef" for ch in a):
                 for v in mutate_frame(r, bytes.fromhex(a))[:2]:
                     yield ("SERDEFRAME " + hx(v), "decoded-mutated-encoder-output", True)
+        for fr in nul_descriptor_frames(r):
+            yield ("SERDEFRAME " + hx(fr), "decoded-nul-descriptor", True)
         from props.l5 import msm_payload_bits
         for n in [x for x in g.numbers if 1071 <= x <= 1137]:
             for (ns, ng) in [(2, 2), (3, 1), (8, 8), (4, 3)]:
